@@ -2043,6 +2043,7 @@ class UPPDDLReader:
                 metric = CustomParseResults(m[0])
                 if (
                     optimization == "minimize"
+                    and not isinstance(metric.value, str)
                     and len(metric) == 1
                     and metric[0].value == "total-time"
                 ):
